@@ -1,4 +1,5 @@
 import ShellOp.Proofs.MetricsRepl
+import ShellOp.Proofs.MetricsU
 /-!
 # C16 — hook metrics: validated as a batch; grouped metrics replaced, not accumulated
 
@@ -331,6 +332,56 @@ theorem type_clash_witness :
   decide
 
 /-! ## Ungrouped updates -/
+
+/-- the vec family and the update of an ungrouped operation. -/
+def uFam (action : String) : Fam :=
+  if action = "add" then .counter else if action = "set" then .gauge else .histogram
+
+def uUpd (action : String) (v : Int) (e : UEntry) : UEntry :=
+  if action = "add" then { e with val := e.val + v }
+  else if action = "set" then { e with val := v }
+  else { e with val := e.val + v, cnt := e.cnt + 1 }
+
+/-- **C16.2** `ungrouped_update` (partial: hypothesis `NoNameClash` — the metric's vec exists with
+this type and exactly these label names, or the name is free; a counter is not decreased): one
+ungrouped `add` / `set` / `observe` updates exactly the named series — the one whose labels are the
+operation's labels with the `hook` label merged in (and winning) — `add` adds, `set` overwrites,
+`observe` adds to the sum and counts; every other ungrouped series and every grouped series is
+untouched. -/
+theorem ungrouped_update_partial (st : State) (common : Labels) (op : Op) (v : Int)
+    (ha : op.action = "add" ∨ op.action = "set" ∨ (op.action = "observe" ∧ op.buckets = true))
+    (hv : op.value = some v) (hneg : op.action = "add" → 0 ≤ v)
+    (hNoClash :
+      (∃ vec, st.vecs.find? (fun x => x.name == op.name && x.fam == uFam op.action) = some vec ∧
+          vec.labelNames = (mergeLabels op.labels common).map (·.1)) ∨
+      (st.vecs.find? (fun x => x.name == op.name && x.fam == uFam op.action) = none ∧ st.registered op.name = false)) :
+    ∃ st', sendOneV0 common st op = some st' ∧ st'.gentries = st.gentries ∧ st'.colls = st.colls ∧
+      ∀ n' k', uLookup st'.uentries n' k' =
+        if n' = op.name ∧ k' = mergeLabels op.labels common then
+          some (uUpd op.action v ((uLookup st.uentries op.name (mergeLabels op.labels common)).getD
+            { name := op.name, key := mergeLabels op.labels common, val := 0 }))
+        else uLookup st.uentries n' k' := by
+  rcases ha with ha | ha | ⟨ha, hb⟩
+  · have hnn : ¬ v < 0 := by have := hneg ha; omega
+    have hnn' : decide (v < 0) = false := by simpa using hnn
+    have hok := ungroupedApply_ok st .counter op.name (mergeLabels op.labels common)
+      (fun e => { e with val := e.val + v }) (by simpa [uFam, ha] using hNoClash)
+    refine ⟨_, by simp [sendOneV0, ha, hv, hnn'], hok.2.1, hok.2.2, ?_⟩
+    intro n' k'
+    rw [hok.1, uLookup_uUpsert (fun e => { e with val := e.val + v }) (fun e => ⟨rfl, rfl⟩)]
+    simp [uUpd, ha]
+  · have hok := ungroupedApply_ok st .gauge op.name (mergeLabels op.labels common)
+      (fun e => { e with val := v }) (by simpa [uFam, ha] using hNoClash)
+    refine ⟨_, by simp [sendOneV0, ha, hv], hok.2.1, hok.2.2, ?_⟩
+    intro n' k'
+    rw [hok.1, uLookup_uUpsert (fun e => { e with val := v }) (fun e => ⟨rfl, rfl⟩)]
+    simp [uUpd, ha]
+  · have hok := ungroupedApply_ok st .histogram op.name (mergeLabels op.labels common)
+      (fun e => { e with val := e.val + v, cnt := e.cnt + 1 }) (by simpa [uFam, ha] using hNoClash)
+    refine ⟨_, by simp [sendOneV0, ha, hv, hb], hok.2.1, hok.2.2, ?_⟩
+    intro n' k'
+    rw [hok.1, uLookup_uUpsert (fun e => { e with val := e.val + v, cnt := e.cnt + 1 }) (fun e => ⟨rfl, rfl⟩)]
+    simp [uUpd, ha]
 
 /-- **C16.2** `ungrouped_update`: on a name that is free in the registry, an ungrouped `set`
 creates the vec with the operation's label names plus `hook`, and the series with the value. -/
